@@ -122,6 +122,22 @@ theorem allocInv_run (targets : List (List Role)) (base : List Nat) (order : Lis
   foldl_inv0 (allocStep targets) (AllocInv targets base) _ (allocInv_init targets base)
     (fun st pre a h => allocInv_step targets base st pre a h) order
 
+/-- the three-way split of the departed node's entries that `allocateActors` computes -/
+theorem alloc_partition (targets : List (List Role)) (base : List Nat) (order : List Actor) :
+    let st := allocRun targets base order
+    order.Perm (st.singles ++ st.shares.flatten ++ st.unplaceable) := by
+  intro st
+  have inv := allocInv_run targets base order
+  have h3 := perm_three (fun a : Actor => a.singleton) (placeable targets) (orphan targets)
+    (by
+      intro a
+      simp only [placeable, orphan]
+      cases a.singleton <;> cases eligibleSomewhere targets a.role <;> simp) order
+  refine h3.trans ?_
+  show (List.filter (fun a => a.singleton) order ++ _ ++ _).Perm (st.singles ++ st.shares.flatten ++ st.unplaceable)
+  rw [inv.singles_eq, inv.unpl_eq]
+  exact List.Perm.append_right _ (List.Perm.append_left _ inv.placed_perm.symm)
+
 theorem allocRun_append (targets : List (List Role)) (base : List Nat) (pre post : List Actor) :
     allocRun targets base (pre ++ post) = post.foldl (allocStep targets) (allocRun targets base pre) := by
   simp [allocRun, List.foldl_append]
